@@ -155,12 +155,12 @@ def parts(tier):
         ]
     from vflib import progsym
     return [
-        CH("k1k2", "vflib.props.c04:scen_tv", {"pool": "KEY_POOL_FULL", "styled": "k1k2", "templates": progsym.TEMPLATES_FULL}, shards=16, timeout=250, path_timeout=30),
+        CH("k1k2", "vflib.props.c04:scen_tv", {"pool": "KEY_POOL_FULL", "styled": "k1k2", "templates": progsym.TEMPLATES_FULL}, shards=16, timeout=150, path_timeout=30),
         CH("options", "vflib.props.c04:scen_tv", {"pool": "KEY_POOL_FULL", "styled": "k3", "options": True, "templates": progsym.TEMPLATES_FULL},
-           shards=16, timeout=250, path_timeout=30),
+           shards=16, timeout=150, path_timeout=30),
         CH("second_emission_same_registry", "vflib.props.c04:scen_tv", {"pool": "KEY_POOL_QUICK", "styled": "k3", "second_emission": True, "options": True,
                                                                         "templates": ["flat_scalars", "odd_string_values", "list_of_objects", "nested_object"]},
-           shards=16, timeout=250, path_timeout=30),
+           shards=16, timeout=150, path_timeout=30),
     ]
 
 
